@@ -787,6 +787,174 @@ Proof.
   rewrite (list_ok_authentic _ _ _ _ _ E). reflexivity.
 Qed.
 
+(* ---------- header injectivity; the converse of verifyHeader ---------- *)
+
+(* distinct entry lists give distinct headers: equal headers of well-formed lists list back equal entries *)
+Theorem parse_entries_inj bs1 bs2 h : wfbs bs1 -> wfbs bs2 ->
+  make_header bs1 = Some h -> make_header bs2 = Some h -> with_offsets bs1 0 = with_offsets bs2 0.
+Proof.
+  intros W1 W2 H1 H2.
+  pose proof (parse_go_header bs1 h (length h) 0 W1 H1 (le_n _)) as P1.
+  pose proof (parse_go_header bs2 h (length h) 0 W2 H2 (le_n _)) as P2.
+  rewrite P1 in P2. inversion P2. reflexivity.
+Qed.
+
+Lemma le32_put32_mod n : le32 (put32 n) = n mod two32.
+Proof.
+  unfold le32, put32, two32.
+  rewrite !Z2N.id by (apply Z.mod_pos_bound; lia).
+  Z.div_mod_to_equations. lia.
+Qed.
+
+(* what the header can carry of a blob: lengths are truncated to 32 bits *)
+Definition norm0 (b : blob) : blob :=
+  mkBlob (b_type b) (b_id b) (b_len b mod two32) 0 (if b_ulen b =? 0 then 0 else b_ulen b mod two32).
+
+Lemma parse_entry_enc_gen b t rest : len (b_id b) = 32 -> type_byte b = Some t ->
+  parse_entry (enc_entry t b ++ rest) = Ok (norm0 b, entry_size_of (b_ulen b)).
+Proof.
+  intros Hid Ht. unfold norm0.
+  pose proof (len_enc_entry t b Hid) as Le. pose proof (len_nonneg rest) as Lr.
+  unfold parse_entry. rewrite len_app, Le.
+  assert (Hes : 37 <= entry_size_of (b_ulen b) <= 41) by (unfold entry_size_of; consts; destruct (b_ulen b =? 0); lia).
+  replace (entry_size_of (b_ulen b) + len rest <? plain_entry_size) with false by (consts; lia).
+  unfold enc_entry in *. cbn [app].
+  set (tailp := (put32 (b_len b) ++ (if b_ulen b =? 0 then [] else put32 (b_ulen b)) ++ b_id b) ++ rest) in *.
+  assert (Lt1 : len [t] = 1) by reflexivity.
+  assert (Htail : forall l, 1 <= l -> l - 1 <= len tailp -> sub (t :: tailp) 1 l = sub tailp 0 (l - 1)).
+  { intros l H1 H2. change (t :: tailp) with ([t] ++ tailp).
+    rewrite sub_app_r by lia. rewrite Lt1. replace (1 - 1) with 0 by lia. reflexivity. }
+  assert (Ltail : len tailp = entry_size_of (b_ulen b) - 1 + len rest).
+  { unfold tailp. rewrite len_app. rewrite len_cons in Le. lia. }
+  rewrite Htail by lia. replace (5 - 1) with 4 by lia.
+  unfold tailp at 1. rewrite <- app_assoc. rewrite (sub_app_head' (put32 (b_len b)) _ 4) by reflexivity.
+  rewrite le32_put32_mod.
+  assert (H5 : sub (t :: tailp) 5 (entry_size_of (b_ulen b) + len rest)
+               = Some (((if b_ulen b =? 0 then [] else put32 (b_ulen b)) ++ b_id b) ++ rest)).
+  { change (t :: tailp) with ([t] ++ tailp). rewrite sub_app_r by lia. rewrite Lt1.
+    unfold tailp. rewrite <- app_assoc.
+    replace (5 - 1) with (len (put32 (b_len b))) by reflexivity.
+    replace (entry_size_of (b_ulen b) + len rest - 1)
+      with (len (put32 (b_len b) ++ ((if b_ulen b =? 0 then [] else put32 (b_ulen b)) ++ b_id b) ++ rest)).
+    - apply sub_app_tail.
+    - rewrite !len_app, len_put32. rewrite len_cons, !len_app, len_put32 in Le. lia. }
+  rewrite H5.
+  unfold type_byte in Ht. unfold entry_size_of in *.
+  destruct (b_ulen b =? 0) eqn:Eu.
+  - destruct (b_type b) eqn:Eb; try congruence; inversion Ht; subst t; cbn [type_of_byte is_comp_byte N.eqb orb Pos.eqb];
+      cbn [app]; rewrite copy_id_app by assumption; reflexivity.
+  - assert (Hc : is_comp_byte t = true /\ type_of_byte t = Some (b_type b)).
+    { destruct (b_type b) eqn:Eb; try congruence; inversion Ht; subst t; split; reflexivity. }
+    destruct Hc as [Hc1 Hc2]. rewrite Hc1, Hc2.
+    replace (entry_size + len rest <? entry_size) with false by lia.
+    rewrite <- app_assoc. rewrite (sub_app_head' (put32 (b_ulen b)) _ 4) by reflexivity.
+    rewrite (sub_app_tail' (put32 (b_ulen b)) (b_id b ++ rest)) by (rewrite ?len_app; reflexivity).
+    rewrite le32_put32_mod. rewrite copy_id_app by assumption. reflexivity.
+Qed.
+
+Fixpoint ids32 (bs : list blob) : Prop := match bs with [] => True | b :: r => len (b_id b) = 32 /\ ids32 r end.
+
+Lemma make_header_len_gen bs h : ids32 bs -> make_header bs = Some h -> len h + header_size = hdr_len bs.
+Proof.
+  revert h; induction bs as [|b r IH]; intros h Hw Hm; cbn [make_header hdr_len] in *.
+  - inversion Hm; cbn; lia.
+  - destruct Hw as [Hb Hr]. destruct (type_byte b) as [t|]; [|discriminate].
+    destruct (make_header r) as [h'|]; [|discriminate].
+    assert (Hh : h = enc_entry t b ++ h') by congruence. subst h.
+    rewrite len_app, len_enc_entry by exact Hb. specialize (IH h' Hr eq_refl). lia.
+Qed.
+
+Lemma parse_go_header_gen bs : forall h fuel pos, ids32 bs -> make_header bs = Some h -> (length h <= fuel)%nat ->
+  parse_go fuel h pos = Ok (with_offsets (map norm0 bs) pos).
+Proof.
+  induction bs as [|b r IH]; intros h fuel pos Hw Hm Hf; cbn [make_header with_offsets map] in *.
+  - inversion Hm; subst h. destruct fuel; reflexivity.
+  - destruct Hw as [Hb Hr]. destruct (type_byte b) as [t|] eqn:Et; [|discriminate].
+    destruct (make_header r) as [h'|] eqn:Eh; [|discriminate].
+    assert (Hh : h = enc_entry t b ++ h') by congruence. subst h; clear Hm.
+    pose proof (len_enc_entry t b Hb) as Le.
+    assert (Hne : exists x y, enc_entry t b ++ h' = x :: y) by (unfold enc_entry; cbn [app]; eauto).
+    destruct Hne as (x & y & Hxy).
+    destruct fuel as [|fuel]; [rewrite Hxy in Hf; cbn [length] in Hf; lia|].
+    cbn [parse_go]. rewrite Hxy. rewrite <- Hxy.
+    rewrite (parse_entry_enc_gen b t h' Hb Et).
+    rewrite <- Le. rewrite sub_app_tail.
+    rewrite (IH h' fuel _ Hr eq_refl).
+    + reflexivity.
+    + rewrite app_length in Hf. unfold len in Le. unfold entry_size_of in Le. consts.
+      destruct (b_ulen b =? 0); lia.
+Qed.
+
+Lemma norm_fixed bs : forall pos, with_offsets (map norm0 bs) pos = bs ->
+  Forall (fun b => 0 <= b_len b < two32 /\ 0 <= b_ulen b < two32) bs.
+Proof.
+  induction bs as [|b r IH]; intros pos H; [constructor|]. cbn [map with_offsets] in H.
+  injection H as Hb Hr. constructor; [|apply (IH _ Hr)].
+  destruct b as [ty i l o u]. unfold set_off, norm0 in Hb. cbn [b_type b_id b_len b_off b_ulen] in Hb.
+  injection Hb as Hl Ho Hu. cbn [b_len b_ulen].
+  assert (T : 0 < two32) by (unfold two32; lia).
+  split; [rewrite <- Hl; apply Z.mod_pos_bound, T|].
+  destruct (u =? 0) eqn:E; [unfold two32; lia|]. rewrite <- Hu. apply Z.mod_pos_bound, T.
+Qed.
+
+Section AE_converse.
+Variable seal : sealer.
+Variable open : opener.
+Hypothesis open_seal : forall n p, open n (seal n p) = Some p.
+Hypothesis seal_len : forall n p, len (seal n p) = len p + mac_size.
+
+(* the converse of verifyHeader: if Finalize succeeds (32-byte ids, header below 4 GiB) then the packer's blobs
+   are exactly what the header can carry - stored and uncompressed lengths below 2^32, running offsets - the
+   pack is non-empty and the header fits MaxHeaderSize.  So a blob of 4 GiB or more, a wrong offset, an empty
+   packer or an over-long header always makes Finalize fail. *)
+Theorem finalize_ok_wf nonce p f :
+  finalize seal open nonce p = Ok f -> len nonce = nonce_size -> ids32 (p_blobs p) -> hdr_len (p_blobs p) < two32 ->
+  p_blobs p <> [] /\ hdr_len (p_blobs p) <= max_header_size /\
+  with_offsets (p_blobs p) 0 = p_blobs p /\
+  Forall (fun b => 0 <= b_len b < two32 /\ 0 <= b_ulen b < two32) (p_blobs p).
+Proof.
+  intros Hfin Hn Hids Hlt. unfold finalize in Hfin.
+  destruct (make_header (p_blobs p)) as [h|] eqn:Hh; [|discriminate]. cbv zeta in Hfin.
+  pose proof (make_header_len_gen _ _ Hids Hh) as Lh.
+  set (enc0 := nonce ++ seal nonce h) in *.
+  assert (Lenc : len enc0 = hdr_len (p_blobs p) - 4).
+  { unfold enc0. rewrite len_app, seal_len, Hn. consts. lia. }
+  set (enc := enc0 ++ put32 (len enc0)) in *.
+  assert (Lf : len enc = hdr_len (p_blobs p)) by (unfold enc; rewrite len_app, len_put32; lia).
+  destruct (list_pack open enc (len enc)) as [[dec hs]| |] eqn:EL; try discriminate.
+  destruct ((hs =? len enc mod two32) && list_eqb blob_eqb dec (p_blobs p)) eqn:Ec; [|discriminate].
+  apply andb_true_iff in Ec as [_ Ec]. apply blobs_eqb_spec in Ec. subst dec. clear Hfin.
+  unfold list_pack in EL. rewrite read_header_refines in EL.
+  destruct (read_header_spec enc (len enc)) as [buf| |] eqn:Er; try discriminate.
+  apply read_header_spec_ok in Er as (l4 & H1 & H2 & H3 & Hbad & H5 & H6).
+  pose proof (hdr_len_ge (p_blobs p)) as Hge. pose proof (len_nonneg enc0) as L0.
+  assert (E4 : sub enc (len enc - 4) (len enc) = Some (put32 (len enc0))).
+  { unfold enc. apply sub_app_tail'; rewrite ?len_app, ?len_put32; lia. }
+  rewrite E4 in H3. injection H3 as <-. rewrite le32_put32_mod in *.
+  rewrite Z.mod_small in * by (unfold two32 in *; lia).
+  assert (E5 : sub enc (len enc - 4 - len enc0) (len enc - 4) = Some enc0).
+  { unfold enc. replace (len (enc0 ++ put32 (len enc0)) - 4 - len enc0) with 0 by (rewrite len_app, len_put32; lia).
+    apply sub_app_head'. rewrite len_app, len_put32. lia. }
+  rewrite E5 in H5. injection H5 as <-.
+  unfold hlen_bad in Hbad. consts. rewrite !orb_false_iff in Hbad. destruct Hbad as (((B0 & B1) & B2) & B3).
+  destruct (len enc0 <? 32) eqn:E32; [discriminate|].
+  assert (En : sub enc0 0 16 = Some nonce) by (unfold enc0; apply sub_app_head'; lia).
+  assert (Ect : sub enc0 16 (len enc0) = Some (seal nonce h))
+    by (unfold enc0; apply sub_app_tail'; rewrite ?len_app; lia).
+  rewrite En, Ect, open_seal in EL. unfold parse_entries in EL.
+  rewrite (parse_go_header_gen _ h (length h) 0 Hids Hh (le_n _)) in EL.
+  apply Ok_pair_inj in EL as [Hdec _].
+  split; [|split; [lia|split]].
+  - intros E. rewrite E in Lf, Lenc. cbn [hdr_len] in *. consts. lia.
+  - assert (Hoff : forall bs q, with_offsets (map norm0 bs) q = bs -> with_offsets bs q = bs).
+    { induction bs as [|b r IH]; intros q Hq; [reflexivity|]. cbn [map with_offsets] in *.
+      injection Hq as Hb Hr. destruct b as [ty i l o u]. unfold set_off, norm0 in *. cbn [b_type b_id b_len b_off b_ulen] in *.
+      injection Hb as Hl Ho Hu. rewrite Hl in Hr. rewrite (IH _ Hr). rewrite Ho. reflexivity. }
+    apply Hoff, Hdec.
+  - apply (norm_fixed _ 0 Hdec).
+Qed.
+End AE_converse.
+
 (* ---------- non-vacuity ---------- *)
 Definition toy_seal : sealer := fun n p => p ++ repeat 7%N 16.
 Definition toy_open : opener := fun n c => Some (firstn (length c - 16) c).
